@@ -764,6 +764,61 @@ func c16unionProbes(c *core.Ctx) {
 	}
 }
 
+// conditions that reach a node through more than one uses, through a choice or a case (stated there, or on the uses
+// or augment that brings the choice or the case in): every one of them applies to the data nodes below
+func c16inheritProbes(c *core.Ctx) {
+	y := `module pi { namespace "urn:pi"; prefix pi; revision 2020-01-01;
+  grouping g2 { leaf inner { type string; } }
+  grouping g1 { leaf mid { type string; } uses g2 { when "b=1"; } }
+  container nest { leaf a { type int32; } leaf b { type int32; } uses g1 { when "a=1"; } }
+  grouping gc { choice ch { case k1 { leaf c1 { type string; } } leaf c2 { type string; } } }
+  container withch { leaf on { type int32; } uses gc { when "on=1"; } }
+  container t { leaf on { type int32; } choice k { case k1 { leaf x1 { type string; } } } }
+  augment "/t/k" { when "on=1"; case k2 { leaf x2 { type string; } container xc { leaf x3 { type string; } } } }
+  container direct { leaf on { type int32; } choice dk { when "on=1"; leaf y1 { type string; } }
+    choice dk2 { case d2 { when "on=2"; leaf y2 { type string; } } case d3 { leaf y3 { type string; } } } }
+}`
+	m, err := parser.LoadModuleFromString(nil, y)
+	if err != nil {
+		c.Violation(core.Replay{Kind: "harness", Summary: "C16 inherit probe module: " + err.Error(), NoInputFound: true})
+		return
+	}
+	for _, tc := range []struct{ doc, want string }{
+		{`{"nest":{"a":1,"b":1,"mid":"m","inner":"i"}}`, `{"nest":{"a":1,"b":1,"mid":"m","inner":"i"}}`},
+		{`{"nest":{"a":1,"b":0,"mid":"m","inner":"i"}}`, `{"nest":{"a":1,"b":0,"mid":"m"}}`},
+		{`{"nest":{"a":0,"b":1,"mid":"m","inner":"i"}}`, `{"nest":{"a":0,"b":1}}`},
+		{`{"nest":{"a":1,"mid":"m","inner":"i"}}`, `{"nest":{"a":1,"mid":"m"}}`},
+		{`{"withch":{"on":1,"c1":"x"}}`, `{"withch":{"on":1,"c1":"x"}}`},
+		{`{"withch":{"on":0,"c1":"x"}}`, `{"withch":{"on":0}}`},
+		{`{"withch":{"on":0,"c2":"y"}}`, `{"withch":{"on":0}}`},
+		{`{"withch":{"on":1,"c2":"y"}}`, `{"withch":{"on":1,"c2":"y"}}`},
+		{`{"t":{"on":1,"x2":"v","xc":{"x3":"w"}}}`, `{"t":{"on":1,"x2":"v","xc":{"x3":"w"}}}`},
+		{`{"t":{"on":0,"x2":"v","xc":{"x3":"w"}}}`, `{"t":{"on":0}}`},
+		{`{"t":{"on":0,"x1":"v"}}`, `{"t":{"on":0,"x1":"v"}}`},
+		{`{"direct":{"on":1,"y1":"v","y3":"z"}}`, `{"direct":{"on":1,"y1":"v","y3":"z"}}`},
+		{`{"direct":{"on":0,"y1":"v"}}`, `{"direct":{"on":0}}`},
+		{`{"direct":{"on":2,"y2":"v"}}`, `{"direct":{"on":2,"y2":"v"}}`},
+		{`{"direct":{"on":1,"y2":"v"}}`, `{"direct":{"on":1}}`},
+	} {
+		c.Evaluations++
+		c.Count("probe", "inherited condition")
+		c.Distinct("inherit " + tc.doc)
+		var got string
+		perr := safeDo(func() error {
+			n, err := nodeutil.ReadJSON(tc.doc)
+			if err != nil {
+				return err
+			}
+			got, err = nodeutil.WriteJSON(node.NewBrowser(m, n).Root())
+			return err
+		})
+		if perr != nil || got != tc.want {
+			c.Violation(core.Replay{Kind: "property-failure", Class: "probe-inherited-condition", Summary: fmt.Sprintf("%s reads as %s (%v); with every condition that applies: %s", tc.doc, short(got), perr, tc.want),
+				Input: map[string]interface{}{"yang": y, "document": tc.doc}, Impl: got, Spec: tc.want})
+		}
+	}
+}
+
 // a conditional leaf addressed directly (Find(leaf) then Get / SetValue) behaves as it does through its container
 func c16leafProbes(c *core.Ctx) {
 	m, err := parser.LoadModuleFromString(nil, `module lw { namespace "urn:lw"; prefix lw; revision 2020-01-01;
@@ -841,6 +896,7 @@ func C16(c *core.Ctx) {
 	c16probes(c)
 	c16leafProbes(c)
 	c16unionProbes(c)
+	c16inheritProbes(c)
 	rng := core.NewRng(c.Seed)
 	var lines []string
 	type pend struct {
